@@ -311,7 +311,7 @@ def c17(tier):
     debug_rejected = 0
     for j, (kname, s, probes) in enumerate(meta):
         text = items[j].text
-        f0 = [x for x in s.fields if x.name == "f0"][0]
+        f0 = [x for x in s.fields if x.family == 'F0'][0]
         if j in errs:
             if s.debug and (not f0.readable or f0.arr):
                 # C19: not all fields readable scalars => `debug` does not compile. Nothing to probe.
